@@ -32,7 +32,7 @@ def run(rep, tier):
     rep.rule(rid, "SIV / ISAP output equals the specification; keys persist and are not modified")
     prep = modes.prepare(tier)
     shapes = [(0, 0), (1, 1), (8, 7), (9, 8), (0, 17), (17, 33)] if tier == "quick" else \
-        [(a, n) for a in (0, 1, 7, 8, 9, 17) for n in (0, 1, 7, 8, 9, 16, 17, 33)]
+        [(a, n) for a in (0, 1, 7, 8, 9, 16, 17, 18, 33) for n in tuple(range(0, 35)) + (63, 64, 65, 129, 500)]
     cases = []
     for js, cname, layout, maxs, units in prep:
         rep.configs.append(cname)
